@@ -40,7 +40,7 @@ CLAIMED = {
          "positions whose reader accepts no reference at all (name enums, /Type tags) are detected with a valid-reference control and not asserted; references merely carried (Ref<T>, Lazy, Primitive) are accepted as is",
          "DESIGN.md §4 C18"),
  "C19": ("proptest-generated W arrays / simple-font tables / code-to-text maps / conformant CMap texts; reference model (map of assigned widths, map of entries) as oracle, write_cmap round-trip",
-         "Generated-input search: composite-font width arrays with groups in any order and both forms (the evidence counts the five growth cases empty/append/prepend/gap/inside), simple fonts, maps with BMP, supplementary and multi-character texts, and independently generated CMap texts using bfchar and both bfrange forms with 1- and 2-byte codes; every probed code's width and the exact set of map entries are compared with the model.",
+         "Generated-input search: composite-font width arrays with groups in any order and both forms (the evidence counts the five growth cases empty/append/prepend/gap/inside), simple fonts, maps with BMP, supplementary and multi-character texts and runs of consecutive codes whose texts are unrelated, consecutive, or consecutive across a ..FF/..00 boundary of the last UTF-16 unit, and independently generated CMap texts using bfchar and both bfrange forms with 1- and 2-byte codes; every probed code's width and the exact set of map entries are compared with the model.",
          "fonts are read through the public API from files written by the harness; simple fonts carry no /MissingWidth",
          "DESIGN.md §4 C19"),
  "C06": ("proptest-generated encrypted documents produced by an independent implementation of the standard security handler; oracle = known plaintext and password acceptance/rejection",
@@ -48,7 +48,7 @@ CLAIMED = {
          "MD5, SHA-2 and AES block primitives are trusted; key schedules, RC4 and Algorithm 2.B are implemented independently in harness/src/engine/crypt.rs and anchored on the corpus's password-protected files",
          "DESIGN.md §4 C06"),
  "C08": ("proptest-generated operation sequences (round-trip oracle under an independent structural description) and the 73-operator table with generated operands spelled by the randomised printer (oracle = my table of expansions); thorough tier ends with a coverage-guided libFuzzer campaign (target content_roundtrip)",
-         "Generated-input search: (a) sequences over all Op variants biased towards the shorthand-triggering adjacencies, serialised and parsed back; (b) every operator of Table A.1 alone and in sequences of up to 6 with well-formed operands and random conformant spelling, compared with the specification's expansion, including the tracked current point for v and absence of operand leaks.",
+         "Generated-input search: (a) sequences over all Op variants biased towards the shorthand-triggering adjacencies, serialised and parsed back; (b) every operator of Table A.1 alone and in sequences of up to 6 with well-formed operands and random conformant spelling, compared with the specification's expansion, including the tracked current point for v (after m l c v y, after h s b b* = start of the closed subpath, after re = the rectangle's origin; extra section of path operators only) and absence of operand leaks.",
          "the expansion table is my reading of ISO 32000-1 Table A.1; Integer and Real operands of equal value are identified",
          "DESIGN.md §4 C08, Appendix B"),
  "C05": ("proptest-generated (data, filter chain, parameters) encoded by independent specification encoders; round-trip oracle; exhaustive enumeration of small code spaces; corruption fuzzing for no-panic",
@@ -64,7 +64,7 @@ CLAIMED = {
          "the transcript covers what the walker reads (harness/src/engine/walker.rs); prefixes are sanitised not to contain %PDF-",
          "DESIGN.md §4 C17"),
  "C02": ("proptest-generated update histories + bounded exhaustive enumeration; reference model (fold of sections) as oracle",
-         "Generated-input search over update histories written by an independent PDF writer: 1-5 sections, each classic or stream format, each a partial map number -> direct | compressed | free, random subsection splitting and /Size growth; all 33 824 histories of <=3 sections over two numbers enumerated. Every number 0..Size+2 is resolved (cached and uncached) and compared with the model; trailer and typed page access are checked to be the newest.",
+         "Generated-input search over update histories written by an independent PDF writer: 1-5 sections, each classic or stream format, each a partial map number -> direct | compressed | free, random subsection splitting and /Size growth; long histories of 6-47 sections (half with classic tables only, so the chain is longer than /Size); all 33 824 histories of <=3 sections over two numbers enumerated. Every number 0..Size+2 is resolved (cached and uncached) and compared with the model; trailer and typed page access are checked to be the newest.",
          "well-formedness of generated histories is by construction (see harness/src/props/c02.rs); hybrid-reference files are out of scope",
          "DESIGN.md §4 C02"),
  "C11": ("proptest-generated object-stream layouts + exhaustive kind x position x trailing x filter grid; metamorphic oracle compressed == direct twin == written value",
